@@ -24,6 +24,13 @@ func (d *zzProofDB) Get(k []byte) ([]byte, error) {
 	return nil, nil
 }
 
+func zzKeyLen(kl int) int {
+	if zzBound("VARLEN") != 0 {
+		return 1 + zzChoice(kl)
+	}
+	return kl
+}
+
 // The proof a trie produces for a key (present or absent) verifies to the trie's value; with
 // one genuine node left out, verification fails or still returns the true value.
 func zzH_C08_prove_verify() {
@@ -31,12 +38,14 @@ func zzH_C08_prove_verify() {
 	kl := zzBound("KEYLEN")
 	keys, vals := make([][]byte, n), make([][]byte, n)
 	t := NewEmpty(nil)
+	// keys of 1..KEYLEN bytes: a key may be a strict prefix of another (its value then sits in the
+	// value slot of a branch node)
 	for i := range keys {
-		keys[i], vals[i] = zzKey(kl), zzVal()
+		keys[i], vals[i] = zzKey(zzKeyLen(kl)), zzVal()
 		t.Update(keys[i], vals[i])
 	}
 	root := t.Hash()
-	q := zzKey(kl)
+	q := zzKey(zzKeyLen(kl))
 	var model []byte
 	for i := range keys {
 		if zzBytesEq(keys[i], q) {
